@@ -11,6 +11,7 @@ import (
 
 	"github.com/RoaringBitmap/roaring"
 	"github.com/akrennmair/updog"
+	proto "github.com/akrennmair/updog/proto/updog/v1"
 	"go.etcd.io/bbolt"
 )
 
@@ -244,14 +245,12 @@ func runC04(rep *Report, r *Rng, tier string) {
 		}
 	}
 	runLruConc(rep, r, 8, rounds*4)
-	if tier == "thorough" {
-		runGrpcConc(o, rep, r)
-	}
+	runGrpcConc(o, rep, r, tier)
 	reportRaces(rep, "C04", last)
 	rep.OracleCalls = o.n
 }
 
-func runGrpcConc(o *Oracle, rep *Report, r *Rng) {
+func runGrpcConc(o *Oracle, rep *Report, r *Rng, tier string) {
 	raceBin := updogBin + "-race"
 	if _, err := os.Stat(raceBin); err != nil {
 		rep.Note("no -race build of the server available; concurrent gRPC part skipped")
@@ -282,13 +281,26 @@ func runGrpcConc(o *Oracle, rep *Report, r *Rng) {
 	s := startServer(path, true, false) // default cache
 	var bad atomic.Int64
 	var wg sync.WaitGroup
+	per := 40
+	if tier == "thorough" {
+		per = 150
+	}
+	unknown := QCase{E: &Ex{Op: "E", C: hx("nosuchcolumn"), V: hx("1")}}
 	for g := 0; g < 8; g++ {
 		wg.Add(1)
 		go func(g int) {
 			defer wg.Done()
 			rr := NewRng(uint64(g))
-			for k := 0; k < 150; k++ {
+			for k := 0; k < per; k++ {
 				qi := rr.Intn(len(qs))
+				if k%5 == 4 {
+					// a batch with several failing members: the call fails as a whole (and nothing races inside it)
+					got, _ := s.query(&protoReq{Queries: protoQueries(qcaseToProto(&qs[qi], 0), qcaseToProto(&unknown, 0), qcaseToProto(&qs[qi], 0), qcaseToProto(&unknown, 0), &proto.Query{})})
+					if got != "rpc-error" {
+						bad.Add(1)
+					}
+					continue
+				}
 				got, _ := s.query(&protoReq{Queries: protoQueries(qcaseToProto(&qs[qi], 0))})
 				if got != want[qi] {
 					bad.Add(1)
@@ -299,7 +311,7 @@ func runGrpcConc(o *Oracle, rep *Report, r *Rng) {
 	wg.Wait()
 	alive := s.alive()
 	s.stop()
-	rep.CountN("concurrent-grpc-requests", 8*150)
+	rep.CountN("concurrent-grpc-requests", 8*per)
 	if !alive {
 		rep.Violate(Violation{Kind: "schedule", Signature: "C04:server-died", What: "server exited under concurrent requests: " + trunc(s.exitS, 1500), Expected: "alive", Actual: "exit", Case: map[string]any{"grpc": true}})
 	} else if bad.Load() > 0 {
